@@ -51,7 +51,9 @@ const (
 // -- provider (list / range) ------------------------------------------------
 
 const (
-	queryListKeys      = "SELECT `key`, `flags` FROM `key_trackers`"
+	// the third column is the length of the simple value (0 when there is none): an empty simple value is
+	// tracked (it is transferred like any other) but, as in the memory store, not listed as SIMPLE
+	queryListKeys      = "SELECT t.`key`, t.`flags`, COALESCE(LENGTH(s.`value`), 0) FROM `key_trackers` t LEFT JOIN `simple_entries` s ON s.`key` = t.`key`"
 	queryRangeKeysNorm = "SELECT `key` FROM `key_trackers` WHERE (`hash` > ? AND `hash` < ?) OR `hash` = ? ORDER BY `hash` ASC"
 	queryRangeKeysWrap = "SELECT `key` FROM `key_trackers` WHERE `hash` > ? OR `hash` < ? OR `hash` = ? ORDER BY `hash` ASC"
 )
